@@ -82,3 +82,18 @@ Definition angles_to_x_S (latitude : bool) (phi theta : R) : V3 :=
 (* componentwise closeness of two vectors (used by the enclosure cases) *)
 Definition vdist_le (v w : V3) (tol : R) : Prop :=
   let '(a, b, c) := v in let '(d, e, f) := w in Rabs (a - d) <= tol /\ Rabs (b - e) <= tol /\ Rabs (c - f) <= tol.
+
+(* ---- round 5: branch logic around the formulas ---- *)
+
+(* documented eta of a stripe (survey latitude of its centre): 2.5 n - 57.5, southern stripes (n > 46) minus 180 *)
+Definition eta_doc (stripe : Z) : Q :=
+  (if (stripe <=? 46)%Z then (5 # 2) * inject_Z stripe - (115 # 2)
+   else (5 # 2) * inject_Z stripe - (115 # 2) - (180 # 1))%Q.
+
+(* a longitude reduced to [0, 2 PI): what astropy's Longitude (wrap_angle = 360 deg) does to mu and RA *)
+Definition wrap_turn (x : R) : R := x - 2 * PI * IZR (Int_part (x / (2 * PI))).
+
+(* what numpy needs for x_to_angles to return a finite polar angle: a non-zero divisor and an arccos argument in [-1, 1]
+   (over R, Coq's division by zero and acos outside [-1, 1] are total, so the model alone cannot show a NaN) *)
+Definition x_to_angles_defined (x0 x1 x2 : R) : Prop :=
+  let r := x0 * x0 + x1 * x1 + x2 * x2 in r <> 0 /\ -1 <= x2 / r <= 1.
